@@ -12,7 +12,7 @@ Decided clauses (see DESIGN.md section C03):
 Not decided: agreement with an independent standard-conforming implementation.
 """
 from rules import driver, core, r_err, r_mpt
-from rules.core import key
+from rules.core import key, strip_casts, const_val
 from props import common, fixtures
 
 ECDSA_H = "include/crypto/dsa/ecdsa.h"
@@ -225,6 +225,84 @@ def reduce_rule(rep, u, fname="bn_mod_reduce"):
     return 1
 
 
+def _nonneg_by_form(e):
+    e = strip_casts(e)
+    if const_val(e) is not None:
+        return const_val(e) >= 0
+    k = e.get("k")
+    if k == "bin" and e["op"] == "&":
+        return any(const_val(strip_casts(s_)) is not None and const_val(strip_casts(s_)) >= 0 for s_ in (e["x"], e["y"]))
+    if k == "bin" and e["op"] in ("<", ">", "<=", ">=", "==", "!=", "&&", "||"):
+        return True
+    if k == "bin" and e["op"] in ("%", ">>"):
+        return _nonneg_by_form(e["x"])
+    if k == "cond":
+        return _nonneg_by_form(e["x"]) and _nonneg_by_form(e["y"])
+    if k == "lazy" and e.get("lz") is not None:
+        return _nonneg_by_form(e["lz"])
+    if k == "un" and e.get("op") == "!":
+        return True
+    return False
+
+
+def sign_rule(rep, u, files=("include/math/big_num.h", "include/math/elliptic_curve.h", ECDSA_H), digit_type="bn_digit_t"):
+    """R-SIGN: a signed value converted to a digit (bn_digit_t) enters unsigned multi-digit arithmetic as 2^N - |v| when it is
+    negative: an 'add' becomes a subtraction without borrow and vice versa.  Every such conversion is of a value that is
+    non-negative by form (mask, comparison, constant), of a variable on the non-negative side of a dominating sign test, or
+    of the negation of a variable on its negative side."""
+    from rules import r_range
+    n = 0
+    seen = set()
+    for fn in u.function_list:
+        if not fn.has_cfg or fn.relfile() not in files or fn.name.endswith("self_test"):
+            continue
+        for pos, root, x, ps in fn.nodes():
+            if not (x.get("k") == "cast" and "t" in x and "cv" not in x and "t" in x["e"]):
+                continue
+            if digit_type not in (u.tstr(x["t"]) or ""):
+                continue
+            te = u.type(x["e"]["t"])
+            if not (te["k"] == "int" and te.get("sg")):
+                continue
+            e = strip_casts(x["e"])
+            if const_val(e) is not None:
+                continue
+            kk = (fn.name, x.get("ln"), key(e))
+            if kk in seen:
+                continue
+            seen.add(kk)
+            n += 1
+            rep.functions.add(fn.name)
+            inst = "sign:%s@%s#%d" % (key(e)[:40], fn.name, sum(1 for q in seen if q[0] == fn.name))
+            desc = "%s: the signed value %s converted to a digit at line %s is not negative" % (fn.name, key(e)[:60], x.get("ln"))
+            if _nonneg_by_form(e):
+                rep.proved("R-SIGN", fn, inst, desc, "non-negative by form", x.get("ln"))
+                continue
+            neg = e.get("k") == "un" and e.get("op") == "-"
+            v = strip_casts(e["e"]) if neg else e
+            if v.get("k") != "ref":
+                rep.undecided("R-SIGN", fn, inst, desc, "operand is not a variable, a negated variable or a non-negative form", x.get("ln"))
+                continue
+            probe = 1 if neg else -1
+            ok = False
+            for bid, c, atom in r_range.guards_for(fn, pos, key(v)):
+                s_, known = r_mpt.edge_for_value(fn, bid, c, atom, probe)
+                if not known:
+                    continue
+                if s_ is None or pos[0] not in fn.reach_from([s_], avoid=[bid]):
+                    other = [y for y in fn.blocks[bid].rsucc() if y != s_]
+                    if not any(r_range.written_between(fn, bid, o, pos, core.ref_ids(v)) for o in other):
+                        ok = True
+                        why = "the sign test at line %s keeps %s %s here" % (c.get("ln"), v["n"], "negative" if neg else "non-negative")
+                        break
+            if ok:
+                rep.proved("R-SIGN", fn, inst, desc, why, x.get("ln"))
+            else:
+                rep.violated("R-SIGN", fn, inst, desc, "no dominating sign test: when %s is %s the digit is 2^N - |%s| and the carry/borrow out of "
+                             "the low digit is lost or invented" % (v["n"], "positive" if neg else "negative", v["n"]), x.get("ln"))
+    return n
+
+
 def run(rep, tier):
     us = driver.load_units(units(tier))
     rep.use_units(us)
@@ -249,6 +327,7 @@ def run(rep, tier):
     rep.floor("aliased-argument call shapes", alias_rule(rep, us["ecdsa:default"]), 3)
     rep.floor("hash import sites", hash_length_rule(rep, us["ecdsa:default"]), 6)
     reduce_rule(rep, us["ecdsa:default"])
+    rep.floor("signed-to-digit conversions", sum(sign_rule(rep, u_) for u_ in us.values()) // len(us), 4)
     from props import c09
     c09.byte_api(rep, us, "C03")
     return driver.finish(
